@@ -153,6 +153,31 @@ Arguments item : clear implicits.
 Arguments NotATest {K V Nm F}.
 Arguments row : clear implicits.
 
+(* ---------- sorted(res, key=lambda x: x['labels']) ---------- *)
+Section Sorting.
+Context {V : Type}.
+Variable vleb : V -> V -> bool.      (* <= on label values *)
+Variable veqb : V -> V -> bool.
+
+(* comparison of tuples: the first differing component decides, a proper
+   prefix is smaller *)
+Fixpoint lex_le (a b : list V) : bool :=
+  match a, b with
+  | [], _ => true
+  | _ :: _, [] => false
+  | x :: a', y :: b' => if veqb x y then lex_le a' b' else vleb x y
+  end.
+
+Fixpoint insert_row (r : row V) (l : list (row V)) : list (row V) :=
+  match l with
+  | [] => [r]
+  | x :: t => if lex_le (r_labels r) (r_labels x) then r :: l else x :: insert_row r t
+  end.
+
+(* a stable sort, as Python's *)
+Definition sort_rows (l : list (row V)) : list (row V) := fold_right insert_row [] l.
+End Sorting.
+
 (* ------------------------------------------------------------------ *)
 (* what a cases file evaluates *)
 Definition zentry := (Z * option Z)%type.
@@ -175,6 +200,14 @@ Inductive zcase :=
             (out : res (list (row pv) * nat * list bool * bool * nat)).
             (* rows, n_labels, oracles, verdict, nb_missing_labels *)
 
+Definition pv_leb (a b : pv) : bool :=
+  match a, b with
+  | H x, H y => Z.leb x y
+  | U x, U y => Z.leb x y
+  | H _, U _ => true
+  | U _, H _ => false
+  end.
+
 Definition zeval := evaluate_by_labels (Nm := Z) (F := Z) Z.eqb pv_eqb 0%Z 1%Z (H 0) (H 1) (fun n => H n).
 
 Definition check_case (c : zcase) : bool :=
@@ -188,15 +221,21 @@ Definition check_case (c : zcase) : bool :=
   | ZByLabels ts bl out =>
       match zeval ts bl, out with
       | Ok (rows, n), Ok (irows, inlab, iora, iv, imiss) =>
-          Nat.eqb (length rows) (length irows)
-          && forallb (fun r => existsb (zrow_eqb r) irows) rows
-          && forallb (fun r => existsb (zrow_eqb r) rows) irows
+          let srows := sort_rows pv_leb pv_eqb rows in      (* same rows, in the same order *)
+          list_eqb zrow_eqb srows irows
           && Nat.eqb n inlab
-          && Nat.eqb (length (filter (fun b => b) (oracles rows))) (length (filter (fun b => b) iora))
-          && Nat.eqb (length rows) (length iora)
+          && list_eqb Bool.eqb (oracles srows) iora
           && Bool.eqb (verdict_bl rows) iv
           && Nat.eqb (nb_missing_labels n rows) imiss
       | Raise a, Raise b => Nat.eqb a b
       | _, _ => false
       end
   end.
+
+(* small-scope exhaustive stream: one collection, its test summary and the
+   by-labels summaries for a list of label selections *)
+Definition check_exh (c : list (Z * option (list zitem18)) * list (nat * list zentry) * bool
+                         * list (list Z * res (list (row pv) * nat * list bool * bool * nat))) : bool :=
+  let '(ts, cls, v, sels) := c in
+  check_case (ZTests ts cls v)
+  && forallb (fun p => check_case (ZByLabels ts (fst p) (snd p))) sels.
